@@ -143,7 +143,8 @@ Definition standardize (st : cstyle) (is_page : bool) : ops * ops * ops :=
   (drop_pages (c_set st), drop_pages (c_reset st),
    if is_page && negb touched then ("page", 1) :: incr else incr).
 
-(* update_counters on the value of `page` (None = no such counter yet): resets, then sets, then increments *)
+(* update_counters on the value of `page` (None = no such counter yet): resets, then increments, then sets
+   (css-lists-3 4.5; the order in /repo since commit 30cc3ac) *)
 Definition apply_reset (v : option Z) (nv : string * Z) : option Z :=
   if String.eqb (fst nv) "page" then Some (snd nv) else v.
 Definition apply_set (v : option Z) (nv : string * Z) : option Z :=
@@ -152,7 +153,7 @@ Definition apply_incr (v : option Z) (nv : string * Z) : option Z :=
   if String.eqb (fst nv) "page" then Some (match v with Some x => x | None => 0 end + snd nv) else v.
 Definition update_page_counter (v : option Z) (s : ops * ops * ops) : option Z :=
   let '(sets, resets, incrs) := s in
-  fold_left apply_incr incrs (fold_left apply_set sets (fold_left apply_reset resets v)).
+  fold_left apply_set sets (fold_left apply_incr incrs (fold_left apply_reset resets v)).
 
 (* make_page for page after page: the value of counter(page) in the page state of every page *)
 Fixpoint page_counters (v : option Z) (styles : list cstyle) : list (option Z) :=
